@@ -146,6 +146,25 @@ theorem unknown_key_here (fl : Flags) (env : Env) (hfl : fl.errorUnused = true) 
   rw [hfl, hfilter]
   simp
 
+/-- the same for a key standing anywhere in the mapping -/
+theorem unknown_key_mem (fl : Flags) (env : Env) (hfl : fl.errorUnused = true) (fs : Fields) (kvs : List (Str × Val))
+    (k : Str) (v : Val) (hmem0 : (k, v) ∈ kvs) (hno : noField fs k = true) :
+    ErrC.unused ∈ (decode fl env (.struct fs) (.map kvs)).errs := by
+  rw [decode_struct_map]
+  have hnot : k ∉ (decodeFlat fl env fs kvs).used := by
+    intro hmem
+    have := used_matches fl env fs _ k hmem
+    rw [hno] at this
+    cases this
+  have hmem : (k, v) ∈ kvs.filter fun kv => !(decodeFlat fl env fs kvs).used.contains kv.1 := by
+    simp [List.mem_filter, hnot, hmem0]
+  have hfilter : (kvs.filter fun kv => !(decodeFlat fl env fs kvs).used.contains kv.1).isEmpty = false := by
+    cases hf : kvs.filter fun kv => !(decodeFlat fl env fs kvs).used.contains kv.1 with
+    | nil => rw [hf] at hmem; cases hmem
+    | cons => rfl
+  rw [hfl, hfilter]
+  simp
+
 /-! ## propagation through a struct -/
 
 theorem failed_of_field (fl : Flags) (env : Env) : ∀ (fs : Fields) (kvs : List (Str × Val)) (f : FInfo) (s : Schema)
